@@ -533,6 +533,12 @@ def _div_terms(a, b):
                     else:
                         rest = rest + _mono_term(coef, atoms)
                 return z3.simplify(Q), z3.simplify(rest)
+            # fold: where the dividend contains the DEFINITION of a let-named factor of the divisor, use the name
+            folds = [(c.defs[i][1], c.defs[i][0]) for i, _ in batoms if i in c.defs]
+            if folds and not os.environ.get("PYVC_NOFOLD"):
+                za_f = z3.substitute(za, *folds)
+                if not za_f.eq(za):
+                    za = za_f
             # first with let-named locals kept atomic, then with their definitions expanded
             cands = [za]
             za2 = _expand_defs(c, za, keep={i for i, _ in batoms})
